@@ -607,33 +607,57 @@ def run_api(ctx, con):
                             ctx.violation(comp, cfg, 'result-aliases-operand')
                 except Exception as e:
                     ctx.note_add('monitor-exception:' + type(e).__name__)
-        # power-space broadcasting: x (op) base-element
-        if util.is_pspace(sp) and sp.is_power_space and not util.is_pspace(sp[0]) and len(sp.shape) == 1:
+        # power-space broadcasting: x (op) base-element, base-element (op) x, in-place forms; the base element may be a
+        # fresh one or - by identity - one of the parts of x itself (first, middle, last)
+        if util.is_pspace(sp) and sp.is_power_space and len(sp) >= 2 and not util.is_pspace(sp[0]):
             base = sp[0]
-            for opn, pyop, npop in [('+', lambda u, v: u + v, np.add), ('-', lambda u, v: u - v, np.subtract),
-                                    ('*', lambda u, v: u * v, np.multiply), ('r-', lambda u, v: v - u, lambda A, B: B - A)]:
+            bkind = np.dtype(base.dtype).kind
+            ops_b = [('+', lambda u, v: u + v, np.add, False), ('-', lambda u, v: u - v, np.subtract, False), ('*', lambda u, v: u * v, np.multiply, False),
+                     ('r+', lambda u, v: v + u, lambda A, B: B + A, False), ('r-', lambda u, v: v - u, lambda A, B: B - A, False),
+                     ('r*', lambda u, v: v * u, lambda A, B: B * A, False),
+                     ('+=', lambda u, v: u.__iadd__(v), np.add, True), ('-=', lambda u, v: u.__isub__(v), np.subtract, True),
+                     ('*=', lambda u, v: u.__imul__(v), np.multiply, True)]
+            if bkind in 'fc':
+                ops_b += [('/', lambda u, v: u / v, np.divide, False), ('r/', lambda u, v: v / u, lambda A, B: B / A, False),
+                          ('/=', lambda u, v: u.__itruediv__(v), np.divide, True)]
+            for (opn, pyop, npop, inplace), which in itertools.product(ops_b, ('fresh', 'part0', 'part-middle', 'part-last')):
                 idx += 1
                 if not ctx.mine(idx):
                     continue
-                x = rel(sp, rng)
-                yb = rel(base, rng)
+                x = rel(sp, rng, nozero='/' in opn)
+                if which == 'fresh':
+                    yb = rel(base, rng, nozero='/' in opn)
+                else:
+                    yb = x[{'part0': 0, 'part-middle': len(sp) // 2, 'part-last': len(sp) - 1}[which]]
                 Xp = [np.asarray(p).copy() for p in x.parts]
                 Yb = np.asarray(yb).copy()
                 comp = 'api:broadcast' + opn
-                cfg = util.space_tag(sp)
-                ctx.case('api;broadcast%s;%s' % (opn, tag), 0)
+                cfg = '%s;operand=%s' % (util.space_tag(sp), 'fresh' if which == 'fresh' else 'a-part-of-x')
+                ctx.case('api;broadcast%s;%s' % (opn, tag), which)
                 try:
                     r = pyop(x, yb)
                 except Exception as e:
                     ctx.ev('api-differential')
-                    ctx.violation(comp, cfg, 'raises:' + type(e).__name__, message=str(e)[:200])
+                    ctx.violation(comp, cfg, 'raises:' + type(e).__name__, message=str(e)[:200], operand=which)
                     continue
                 ctx.ev('api-differential')
-                for i, p in enumerate(r.parts):
-                    if not np.allclose(np.asarray(p), npop(Xp[i], Yb), rtol=1e-14, atol=0):
-                        ctx.violation(comp, cfg, 'wrong-value')
-                if not np.array_equal(np.asarray(yb), Yb):
-                    ctx.violation(comp, cfg, 'operand-modified', which='y')
+                try:
+                    with np.errstate(all='ignore'):
+                        refs = [npop(Xp[i], Yb) for i in range(len(Xp))]
+                    if not hasattr(r, 'parts') or len(r.parts) != len(refs):
+                        ctx.violation(comp, cfg, 'result-not-in-space', operand=which)
+                        continue
+                    for i, pr in enumerate(r.parts):
+                        tolr = 1e-12 if np.dtype(base.dtype).itemsize >= 8 else 1e-5
+                        if not np.allclose(np.asarray(pr), refs[i], rtol=tolr, atol=0, equal_nan=True):
+                            ctx.violation(comp, cfg, 'wrong-value', operand=which, part=i)
+                            break
+                    if which == 'fresh' and not np.array_equal(np.asarray(yb), Yb):
+                        ctx.violation(comp, cfg, 'operand-modified', which='y')
+                    if not inplace and not all(np.array_equal(np.asarray(p), Xp[i]) for i, p in enumerate(x.parts)):
+                        ctx.violation(comp, cfg, 'operand-modified', which='x')
+                except Exception as e:
+                    ctx.note_add('monitor-exception:' + type(e).__name__)
 
 
 def _raw_of(sp, y, variant):
@@ -781,7 +805,9 @@ def run_zero_divisors(ctx):
         forms = [('x/y', lambda x, y: x / y), ('x/=y', lambda x, y: x.__itruediv__(y)),
                  ('divide(x,y,out)', lambda x, y: sp.divide(x, y, out=util.fill(sp.element(), 'rnd', rng))),
                  ('divide(x,y,out=x)', lambda x, y: sp.divide(x, y, out=x)), ('divide(x,y,out=y)', lambda x, y: sp.divide(x, y, out=y)),
-                 ('x.divide(y)', lambda x, y: x.divide(y))]
+                 ('x.divide(y)', lambda x, y: x.divide(y)),
+                 # scalar dividends: 0 / 0 = nan, s / 0 = +-inf, and s / subnormal stays finite where the quotient is
+                 ('0/y', lambda x, y: 0 / y), ('s/y', lambda x, y: 2.5 / y), ('tiny/y', lambda x, y: (1e-300 if np.dtype(_leaf_kind(x.space)[1]).itemsize >= 8 else 1e-40) / y)]
         for name, fn in forms:
             idx += 1
             if not ctx.mine(idx):
@@ -800,12 +826,25 @@ def run_zero_divisors(ctx):
                     flat_y[j] = [0.0, -0.0][k % 2]
                     if k % 3 == 2:
                         flat_x[j] = 0.0
+            if name.endswith('/y') and name[0] in '0st':
+                # a subnormal divisor entry: its reciprocal overflows, the quotient with a tiny dividend does not
+                for _p, ly in _leaf_arrays(y):
+                    flat_y = ly.reshape(-1)
+                    if flat_y.size > 6 and np.shares_memory(flat_y, ly):
+                        flat_y[-1] = np.finfo(ly.dtype).tiny * 1e-3
             X, Y = _flat(sp, x).copy(), _flat(sp, y).copy()
             if not (Y == 0).any():
                 ctx.skip('no zero could be planted (non-writeable / non-contiguous leaves)')
                 continue
             with np.errstate(all='ignore'):
-                R = X / Y
+                if name == '0/y':
+                    R = np.zeros_like(Y) / Y
+                elif name == 's/y':
+                    R = np.asarray(2.5, dtype=Y.dtype) / Y
+                elif name == 'tiny/y':
+                    R = np.asarray(1e-300 if Y.dtype.itemsize >= 8 else 1e-40, dtype=Y.dtype) / Y
+                else:
+                    R = X / Y
             comp = 'api:' + name
             cfg = '%s;%s;zero-divisor' % (util.space_tag(sp), util.size_regime(n))
             ctx.case('zero-divisor;%s;%s' % (name, tag), 0)
